@@ -2606,7 +2606,14 @@ class Recipe:
                         # what each well lost, not the total discarded from the whole plate
                         flows["out"] += vfunc(step.to[0].wells) - vfunc(step.to[1].wells)
                     else:
-                        flows["in"] += vfunc(step.to[1].wells) - vfunc(step.to[0].wells)
+                        change = vfunc(step.to[1].wells) - vfunc(step.to[0].wells)
+                        if isinstance(step.frm[0], Plate) and step.frm[0].name == container.name:
+                            # a transfer between wells of this plate: the wells that gained have an inflow,
+                            # the wells that lost an outflow (never a negative flow)
+                            flows["in"] += np.clip(change, 0, None)
+                            flows["out"] += np.clip(-change, 0, None)
+                            continue
+                        flows["in"] += change
                 if isinstance(step.frm[0], Container) and step.frm[0].name == container.name:
                     flows["out"] += (sum(map(helper, step.frm[0].contents.items())) -
                                      sum(map(helper, step.frm[1].contents.items())))
